@@ -597,16 +597,16 @@ C13_Discard  == [][act'.n = "Discard" => Proj' = saved[0]]_vars
 \* failed bind, never emits for an undone entry, each pod at most once per call kind
 NetCalls(os) == LET V == SelectSeq([i \in 1..Len(os) |-> [i |-> i, op |-> os[i]]], LAMBDA r : r.op.k # "undo" /\ NetValid(os, r.i))
                 IN [x \in 1..Len(V) |-> CallOf(V[x].op)]
-\* em matches nc in order; entries of a pod whose eviction failed earlier may be dropped (its later
-\* operations are void); when Commit is done nothing else may be missing unless a bind failed
+\* em matches nc in order; the entries of a pod whose eviction failed earlier are void (Commit undoes them:
+\* nothing may be emitted for them); when Commit is done nothing else may be missing unless a bind failed
 RECURSIVE Match(_, _, _, _)
 Match(nc, em, failed, done) ==
-  IF em = <<>> THEN (~done) \/ (\A x \in 1..Len(nc) : nc[x].p \in failed)
+  IF nc # <<>> /\ Head(nc).p \in failed THEN Match(Tail(nc), em, failed, done)
+  ELSE IF em = <<>> THEN (~done) \/ nc = <<>>
   ELSE /\ nc # <<>>
-       /\ \/ /\ Head(nc).c = Head(em).c /\ Head(nc).p = Head(em).p
-             /\ Match(Tail(nc), Tail(em), IF Head(em).c = "evict" /\ ~Head(em).ok THEN failed \cup {Head(em).p} ELSE failed,
-                      done /\ ~(Len(em) = 1 /\ Head(em).c = "bind" /\ ~Head(em).ok))
-          \/ /\ Head(nc).p \in failed /\ Match(Tail(nc), em, failed, done)
+       /\ Head(nc).c = Head(em).c /\ Head(nc).p = Head(em).p
+       /\ Match(Tail(nc), Tail(em), IF Head(em).c = "evict" /\ ~Head(em).ok THEN failed \cup {Head(em).p} ELSE failed,
+                done /\ ~(Len(em) = 1 /\ Head(em).c = "bind" /\ ~Head(em).ok))
 CommitNetOK(pl, em, done) ==
   /\ Match(NetCalls(pl), em, {}, done)
   /\ \A x, y \in 1..Len(em) : (x # y /\ em[x].c = em[y].c) => em[x].p # em[y].p
